@@ -1,11 +1,1115 @@
-//! Engine E2 (process boundary) — under construction.
-use crate::Args;
-use serde_json::Value;
+//! Engine E2: the shipped `jsonlogic` binary as a process, its system-call boundary owned by the
+//! preloaded interposer (`shim/simio.c`), driven by an explicit, seeded fault script.
+//!
+//! One case = 1–2 process stages. For each stage the harness decides argv, the bytes behind fd 0,
+//! how read(0) / write(1) / write(2) behave call by call, and the ambient; afterwards it judges
+//! (stdout, exit status, trace) against the library's isolated result on the bytes the script
+//! *intended* to deliver.
 
-pub fn main(_a: &Args) -> i32 {
-    eprintln!("e2: not built yet");
-    2
+use serde_json::{json, Value};
+use std::collections::{BTreeMap, BTreeSet};
+use std::fs::File;
+use std::io::Write;
+use std::os::unix::io::{AsRawFd, FromRawFd};
+use std::os::unix::process::ExitStatusExt;
+use std::process::{Command, Stdio};
+use std::time::Instant;
+
+use crate::ambient::Ambient;
+use crate::e1::Violation;
+use crate::gen::{self, Corpus};
+use crate::hooks;
+use crate::ops::{Op, Res};
+use crate::oracle::{self, Oracle};
+use crate::prng::{self, Rng};
+use crate::shrink::value_candidates;
+use crate::Args;
+
+const STACK_KB: usize = 2048;
+
+#[derive(Clone, Debug, PartialEq)]
+pub enum Form {
+    /// data as second argument
+    Arg,
+    /// no second argument, data on stdin
+    StdinOmitted,
+    /// second argument `-`, data on stdin
+    StdinDash,
 }
-pub fn replay(_doc: &Value, _a: &Args) -> i32 {
-    2
+
+#[derive(Clone, Debug, PartialEq)]
+pub struct Act {
+    pub kind: char,
+    pub arg: u64,
+}
+
+fn acts_text(a: &[Act]) -> String {
+    a.iter().map(|x| if x.kind == 'i' || x.kind == 'e' || x.kind == 'b' { x.kind.to_string() } else { format!("{}{}", x.kind, x.arg) }).collect::<Vec<_>>().join(",")
+}
+fn acts_parse(s: &str) -> Vec<Act> {
+    s.split(',')
+        .filter(|x| !x.is_empty())
+        .map(|x| {
+            let mut ch = x.chars();
+            let k = ch.next().unwrap();
+            Act { kind: k, arg: ch.as_str().parse().unwrap_or(0) }
+        })
+        .collect()
+}
+
+#[derive(Clone, Debug, PartialEq)]
+pub struct Stage {
+    pub rule_text: String,
+    pub data_text: Vec<u8>,
+    pub form: Form,
+    pub sep: bool,
+    pub read: Vec<Act>,
+    pub flips: Vec<(usize, u8)>,
+    pub w1: Vec<Act>,
+    pub w2: Vec<Act>,
+    pub ambient: Ambient,
+}
+
+#[derive(Clone, Debug)]
+pub struct Case {
+    pub seed: u64,
+    pub profile: String,
+    pub stage1: Stage,
+    /// second stage: rule applied to stage-1 stdout (data_text is filled in at run time)
+    pub stage2: Option<Stage>,
+}
+
+fn hex(b: &[u8]) -> String {
+    b.iter().map(|x| format!("{:02x}", x)).collect()
+}
+fn unhex(s: &str) -> Option<Vec<u8>> {
+    if s.len() % 2 != 0 {
+        return None;
+    }
+    (0..s.len() / 2).map(|i| u8::from_str_radix(&s[2 * i..2 * i + 2], 16).ok()).collect()
+}
+
+impl Stage {
+    fn to_json(&self) -> Value {
+        json!({
+            "rule_text": self.rule_text,
+            "data_hex": hex(&self.data_text),
+            "data_lossy": String::from_utf8_lossy(&self.data_text),
+            "form": match self.form { Form::Arg => "arg", Form::StdinOmitted => "stdin", Form::StdinDash => "stdin-dash" },
+            "sep": self.sep,
+            "read": acts_text(&self.read), "flips": self.flips.iter().map(|(o, x)| json!([o, x])).collect::<Vec<_>>(),
+            "w1": acts_text(&self.w1), "w2": acts_text(&self.w2),
+            "ambient": self.ambient.to_json(),
+        })
+    }
+    fn from_json(v: &Value) -> Option<Stage> {
+        Some(Stage {
+            rule_text: v.get("rule_text")?.as_str()?.to_string(),
+            data_text: unhex(v.get("data_hex")?.as_str()?)?,
+            form: match v.get("form")?.as_str()? {
+                "arg" => Form::Arg,
+                "stdin" => Form::StdinOmitted,
+                _ => Form::StdinDash,
+            },
+            sep: v.get("sep")?.as_bool()?,
+            read: acts_parse(v.get("read")?.as_str()?),
+            flips: v.get("flips")?.as_array()?.iter().map(|f| Some((f.get(0)?.as_u64()? as usize, f.get(1)?.as_u64()? as u8))).collect::<Option<Vec<_>>>()?,
+            w1: acts_parse(v.get("w1")?.as_str()?),
+            w2: acts_parse(v.get("w2")?.as_str()?),
+            ambient: v.get("ambient").and_then(Ambient::from_json).unwrap_or_default(),
+        })
+    }
+}
+
+impl Case {
+    pub fn to_json(&self) -> Value {
+        json!({"engine": "e2", "seed": self.seed, "profile": self.profile, "stage1": self.stage1.to_json(), "stage2": self.stage2.as_ref().map(|s| s.to_json())})
+    }
+    pub fn from_json(v: &Value) -> Option<Case> {
+        Some(Case {
+            seed: v.get("seed").and_then(|s| s.as_u64()).unwrap_or(0),
+            profile: v.get("profile").and_then(|s| s.as_str()).unwrap_or("debug").to_string(),
+            stage1: Stage::from_json(v.get("stage1")?)?,
+            stage2: match v.get("stage2") {
+                Some(s) if !s.is_null() => Some(Stage::from_json(s)?),
+                _ => None,
+            },
+        })
+    }
+}
+
+// ---------------------------------------------------------------------------------------------
+// generation
+// ---------------------------------------------------------------------------------------------
+
+fn transparent_script(rng: &mut Rng, max_len: usize) -> Vec<Act> {
+    let n = rng.below(max_len + 1);
+    (0..n)
+        .map(|_| if rng.chance(1, 3) { Act { kind: 'i', arg: 0 } } else { Act { kind: 'k', arg: *rng.pick(&[1u64, 1, 2, 3, 5, 8, 31, 32, 33]) } })
+        .collect()
+}
+
+fn gen_stage(rng: &mut Rng, corpus: &Corpus, second: bool) -> Stage {
+    // texts
+    let (rule_v, data_v): (Value, Value) = match rng.weighted(&[35, 35, 8, 12, 10]) {
+        0 => {
+            let (r, d) = rng.pick(&corpus.cases);
+            (serde_json::from_str(r).unwrap(), serde_json::from_str(d).unwrap())
+        }
+        1 => (gen::rule(rng, 3), gen::data(rng, 3)),
+        2 => {
+            let lv = rng.range(10, 60);
+            (gen::deep_rule(rng, lv, 126), gen::data(rng, 2))
+        }
+        3 => (if rng.chance(1, 2) { json!({"var": ""}) } else { gen::atom(rng) }, gen::atom(rng)),
+        _ => {
+            // log-bearing rules: several stdout lines
+            let items: Vec<Value> = (0..rng.range(1, 5)).map(|_| gen::atom(rng)).collect();
+            (json!({"map": [items, {"log": {"var": ""}}]}), gen::data(rng, 1))
+        }
+    };
+    let mut rule_text = gen::render(rng, &rule_v);
+    if second && rng.chance(1, 3) {
+        rule_text = "{\"var\":\"\"}".to_string();
+    }
+    let mut data_text = gen::render(rng, &data_v).into_bytes();
+    if rng.chance(1, 10) {
+        rule_text = gen::mangle(rng, &rule_text);
+    }
+    if rng.chance(1, 7) {
+        data_text = gen::mangle(rng, &String::from_utf8_lossy(&data_text)).into_bytes();
+    }
+    if rng.chance(1, 12) {
+        data_text = (*rng.pick(&["-5", "-0.0", "-1e3", "-1", "-9223372036854775808", "-0.5e-2"])).as_bytes().to_vec();
+    }
+    if rng.chance(1, 25) {
+        rule_text = (*rng.pick(&["-1", "-2.5", "-0"])).to_string();
+    }
+    let mut form = match rng.weighted(&[40, 30, 30]) {
+        0 => Form::Arg,
+        1 => Form::StdinOmitted,
+        _ => Form::StdinDash,
+    };
+    if second && form == Form::Arg {
+        form = Form::StdinOmitted;
+    }
+    let mut sep = rng.chance(1, 4);
+    // what argv cannot carry: NUL bytes, non-UTF-8 (std::process would refuse / clap is out of scope)
+    let argv_safe = |b: &[u8]| !b.contains(&0) && std::str::from_utf8(b).is_ok();
+    if !argv_safe(rule_text.as_bytes()) {
+        rule_text = rule_text.replace('\0', " ");
+    }
+    if form == Form::Arg && (!argv_safe(&data_text) || data_text == b"-") {
+        form = Form::StdinDash;
+    }
+    // A text beginning with '-' is handed to the positional arguments (a JSON text can only begin
+    // with '-' when it is a negative number). What stays reserved for the argument parser are its own
+    // flags (-h, -V, --help, --version and clusters beginning with them): anything that begins with
+    // '-' but not with '-<digit>' is therefore only generated behind `--`.
+    let optionish = |b: &[u8]| b.first() == Some(&b'-') && !b.get(1).map(|c| c.is_ascii_digit()).unwrap_or(false);
+    if optionish(rule_text.as_bytes()) || (form == Form::Arg && optionish(&data_text)) {
+        sep = true;
+    }
+    // faults (swarm: each kind enabled per case with its own probability)
+    let mut read = Vec::new();
+    let mut flips = Vec::new();
+    if form == Form::Arg {
+        if rng.chance(1, 2) {
+            read.push(Act { kind: 'b', arg: 0 }); // stdin never delivers and never ends
+        }
+    } else {
+        if rng.chance(2, 3) {
+            read = transparent_script(rng, 14);
+        }
+        if rng.chance(1, 8) {
+            // early EOF: the producer dies after some reads
+            let at = rng.below(read.len() + 1);
+            read.truncate(at);
+            read.push(Act { kind: 'e', arg: 0 });
+        } else if rng.chance(1, 12) {
+            let at = rng.below(read.len() + 1);
+            read.truncate(at);
+            read.push(Act { kind: 'x', arg: 5 }); // EIO
+        }
+        if rng.chance(1, 8) && !data_text.is_empty() {
+            for _ in 0..rng.range(1, 2) {
+                flips.push((rng.below(data_text.len()), *rng.pick(&[0x01u8, 0x20, 0x80, 0xff, 0x04])));
+            }
+        }
+    }
+    let mut w1 = if rng.chance(1, 3) { transparent_script(rng, 8) } else { Vec::new() };
+    if rng.chance(1, 25) {
+        let at = rng.below(w1.len() + 1);
+        w1.truncate(at);
+        w1.push(Act { kind: 'x', arg: *rng.pick(&[28u64, 32, 5, 11]) }); // ENOSPC, EPIPE, EIO, EAGAIN: class U
+    }
+    let w2 = if rng.chance(1, 6) { transparent_script(rng, 6) } else { Vec::new() };
+    let ambient = Ambient::draw(rng);
+    Stage { rule_text, data_text, form, sep, read, flips, w1, w2, ambient }
+}
+
+pub fn gen_case(seed: u64, profile: &str, corpus: &Corpus) -> Case {
+    let mut rng = Rng::new(seed);
+    let stage1 = gen_stage(&mut rng, corpus, false);
+    let stage2 = if rng.chance(1, 4) { Some(gen_stage(&mut rng, corpus, true)) } else { None };
+    Case { seed, profile: profile.to_string(), stage1, stage2 }
+}
+
+// ---------------------------------------------------------------------------------------------
+// execution of one stage
+// ---------------------------------------------------------------------------------------------
+
+#[derive(Clone, Debug)]
+pub enum Ev {
+    Read { req: u64, ret: i64, tag: String },
+    Write { fd: u8, req: u64, ret: i64, tag: String },
+    Other(String),
+}
+
+#[derive(Clone, Debug)]
+pub struct StageResult {
+    pub stdout: Vec<u8>,
+    pub stderr: Vec<u8>,
+    pub code: Option<i32>,
+    pub signal: Option<i32>,
+    pub timed_out: bool,
+    pub trace: Vec<Ev>,
+    pub trace_raw: String,
+}
+
+fn parse_trace(s: &str) -> Vec<Ev> {
+    let mut out = Vec::new();
+    for line in s.lines() {
+        let p: Vec<&str> = line.split_whitespace().collect();
+        if p.is_empty() {
+            continue;
+        }
+        match p[0] {
+            "r" if p.len() >= 3 => {
+                let ret = if p[2] == "BLOCK" { -2 } else { p[2].parse().unwrap_or(-1) };
+                out.push(Ev::Read { req: p[1].parse().unwrap_or(0), ret, tag: p[3..].join(" ") })
+            }
+            "w1" | "w2" if p.len() >= 3 => out.push(Ev::Write { fd: if p[0] == "w1" { 1 } else { 2 }, req: p[1].parse().unwrap_or(0), ret: p[2].parse().unwrap_or(-1), tag: p[3..].join(" ") }),
+            _ => out.push(Ev::Other(line.to_string())),
+        }
+    }
+    out
+}
+
+pub struct Env {
+    pub cli_debug: String,
+    pub cli_release: String,
+    pub shim: String,
+}
+
+fn memfile(name: &str, content: &[u8]) -> File {
+    let fd = oracle::memfd(name);
+    let mut f = unsafe { File::from_raw_fd(fd) };
+    f.write_all(content).unwrap();
+    unsafe { libc::lseek(fd, 0, libc::SEEK_SET) };
+    f
+}
+
+pub fn budget_for(stage: &Stage, expected_out: usize) -> u64 {
+    4 * (stage.data_text.len() as u64 + expected_out as u64) + (stage.read.len() + stage.w1.len() + stage.w2.len()) as u64 + 64
+}
+
+pub fn run_stage(env: &Env, profile: &str, stage: &Stage, budget: u64) -> StageResult {
+    let bin = if profile == "release" { &env.cli_release } else { &env.cli_debug };
+    let stdin_content: &[u8] = if stage.form == Form::Arg { b"" } else { &stage.data_text };
+    let fin = memfile("e2-stdin", stdin_content);
+    let fout = memfile("e2-stdout", b"");
+    let ferr = memfile("e2-stderr", b"");
+    let ftrace = memfile("e2-trace", b"");
+    // the trace fd must be inherited: clear CLOEXEC (memfd_create without MFD_CLOEXEC already is)
+    let trace_fd = ftrace.as_raw_fd();
+    let mut cmd = Command::new(bin);
+    if stage.sep {
+        cmd.arg("--");
+    }
+    cmd.arg(&stage.rule_text);
+    match stage.form {
+        Form::Arg => {
+            cmd.arg(String::from_utf8_lossy(&stage.data_text).into_owned());
+        }
+        Form::StdinDash => {
+            cmd.arg("-");
+        }
+        Form::StdinOmitted => {}
+    }
+    cmd.env_clear();
+    for (k, v) in &stage.ambient.env {
+        cmd.env(k, v);
+    }
+    cmd.env("LD_PRELOAD", &env.shim);
+    cmd.env("SIMIO_TRACE_FD", trace_fd.to_string());
+    cmd.env("SIMIO_BUDGET", budget.to_string());
+    if !stage.read.is_empty() {
+        cmd.env("SIMIO_READ", acts_text(&stage.read));
+    }
+    if !stage.flips.is_empty() {
+        cmd.env("SIMIO_FLIPS", stage.flips.iter().map(|(o, x)| format!("{}:{}", o, x)).collect::<Vec<_>>().join(","));
+    }
+    if !stage.w1.is_empty() {
+        cmd.env("SIMIO_W1", acts_text(&stage.w1));
+    }
+    if !stage.w2.is_empty() {
+        cmd.env("SIMIO_W2", acts_text(&stage.w2));
+    }
+    if stage.ambient.clock_offset_s != 0 {
+        cmd.env("SIMIO_CLOCK_OFFSET", stage.ambient.clock_offset_s.to_string());
+    }
+    if stage.ambient.clock_step_s != 0 {
+        cmd.env("SIMIO_CLOCK_STEP", stage.ambient.clock_step_s.to_string());
+    }
+    if let Some(s) = stage.ambient.rand_seed {
+        cmd.env("SIMIO_RAND_SEED", format!("{:x}", s));
+    }
+    if let Some(d) = &stage.ambient.cwd {
+        cmd.current_dir(d);
+    }
+    cmd.stdin(Stdio::from(fin.try_clone().unwrap()));
+    cmd.stdout(Stdio::from(fout.try_clone().unwrap()));
+    cmd.stderr(Stdio::from(ferr.try_clone().unwrap()));
+    let mut child = cmd.spawn().expect("spawn jsonlogic");
+    // wall-clock backstop (a real clock, used only to turn a CPU-bound hang into an answer)
+    let pid = child.id() as i32;
+    let pidfd = unsafe { libc::syscall(libc::SYS_pidfd_open, pid, 0) } as i32;
+    let mut timed_out = false;
+    if pidfd >= 0 {
+        let mut pfd = libc::pollfd { fd: pidfd, events: libc::POLLIN, revents: 0 };
+        loop {
+            let r = unsafe { libc::poll(&mut pfd, 1, 30_000) };
+            if r == 0 {
+                timed_out = true;
+                let _ = child.kill();
+            }
+            if r >= 0 {
+                break;
+            }
+        }
+        unsafe { libc::close(pidfd) };
+    }
+    let status = child.wait().expect("wait");
+    let stdout = oracle::read_fd_all(fout.as_raw_fd());
+    let stderr = oracle::read_fd_all(ferr.as_raw_fd());
+    let trace_raw = String::from_utf8_lossy(&oracle::read_fd_all(trace_fd)).into_owned();
+    StageResult { stdout, stderr, code: status.code(), signal: status.signal(), timed_out, trace: parse_trace(&trace_raw), trace_raw }
+}
+
+// ---------------------------------------------------------------------------------------------
+// oracle and judging
+// ---------------------------------------------------------------------------------------------
+
+#[derive(Clone, Debug)]
+pub enum Expect {
+    /// exit 0, stdout exactly these bytes
+    Success { stdout: String },
+    /// exit != 0; stdout is a prefix of `log_prefix` and contains no further line
+    Failure { log_prefix: String, why: String },
+    /// the library itself panics / crashes on this input (C01, input-only); CLI outcome not judged for C18
+    LibraryBroken { how: String },
+    /// over the oracle's step budget: not judged
+    Skip,
+}
+
+/// Bytes the script intends the process to receive on stdin, or None if the script makes the read fail.
+pub fn intended_bytes(stage: &Stage, res: Option<&StageResult>) -> Option<Vec<u8>> {
+    let mut bytes = stage.data_text.clone();
+    for (off, x) in &stage.flips {
+        if *off < bytes.len() {
+            bytes[*off] ^= *x;
+        }
+    }
+    if stage.read.iter().any(|a| a.kind == 'x') {
+        // the error fires only if the process gets that far; if it reached EOF earlier the script's
+        // tail never ran. Decide from the trace when we have one.
+        if let Some(r) = res {
+            let fired = r.trace.iter().any(|e| matches!(e, Ev::Read { ret: -1, tag, .. } if tag.starts_with("errno=")));
+            if fired {
+                return None;
+            }
+        } else {
+            return None;
+        }
+    }
+    if stage.read.iter().any(|a| a.kind == 'e') {
+        if let Some(r) = res {
+            let mut consumed = 0usize;
+            for e in &r.trace {
+                if let Ev::Read { ret, tag, .. } = e {
+                    if tag == "early-eof" {
+                        bytes.truncate(consumed);
+                        break;
+                    }
+                    if *ret > 0 {
+                        consumed += *ret as usize;
+                    }
+                }
+            }
+        }
+    }
+    Some(bytes)
+}
+
+pub fn expectation(rule_text: &str, data: Option<&[u8]>, oracle: &mut Oracle) -> (Expect, Option<Op>) {
+    let rule: Value = match serde_json::from_str(rule_text) {
+        Ok(v) => v,
+        Err(e) => return (Expect::Failure { log_prefix: String::new(), why: format!("rule text is not JSON: {}", e) }, None),
+    };
+    let data = match data {
+        Some(d) => d,
+        None => return (Expect::Failure { log_prefix: String::new(), why: "reading stdin failed".into() }, None),
+    };
+    let data_str = match std::str::from_utf8(data) {
+        Ok(s) => s,
+        Err(_) => return (Expect::Failure { log_prefix: String::new(), why: "data is not UTF-8".into() }, None),
+    };
+    let data_v: Value = match serde_json::from_str(data_str) {
+        Ok(v) => v,
+        Err(e) => return (Expect::Failure { log_prefix: String::new(), why: format!("data text is not JSON: {}", e) }, None),
+    };
+    let op = Op::apply(&rule.to_string(), &data_v.to_string(), false);
+    let iso = oracle.query(&op, STACK_KB);
+    let e = match &iso.res {
+        Res::Ok(text) => Expect::Success { stdout: format!("{}{}\n", iso.emitted, text) },
+        Res::Err(msg) => Expect::Failure { log_prefix: iso.emitted.clone(), why: format!("evaluation fails: {}", msg) },
+        Res::Panic(m) => Expect::LibraryBroken { how: format!("panic: {}", m) },
+        Res::Crash(m) if m.starts_with("over-budget") => Expect::Skip,
+        Res::Crash(m) => Expect::LibraryBroken { how: m.clone() },
+    };
+    (e, Some(op))
+}
+
+fn viol(property: &str, class: &str, stage_no: usize, op: Option<Op>, expected: String, got: String, needs: &str) -> Violation {
+    Violation { property: property.into(), class: class.into(), thread: stage_no, op_idx: 0, op, expected, got, needs: needs.into() }
+}
+
+fn lossy(b: &[u8]) -> String {
+    let s = String::from_utf8_lossy(b);
+    if s.len() > 600 {
+        let mut cut = 600;
+        while !s.is_char_boundary(cut) {
+            cut -= 1;
+        }
+        format!("{}…", &s[..cut])
+    } else {
+        s.into_owned()
+    }
+}
+
+/// Whether the stage carries a fault whose effect the properties do not constrain (class U).
+pub fn unconstrained(stage: &Stage, res: &StageResult) -> bool {
+    let fired = |fd: u8| res.trace.iter().any(|e| matches!(e, Ev::Write { fd: f, ret: -1, tag, .. } if *f == fd && tag.starts_with("errno=")));
+    (stage.w1.iter().any(|a| a.kind == 'x') && fired(1)) || (stage.w2.iter().any(|a| a.kind == 'x') && fired(2))
+}
+
+pub fn has_faults(stage: &Stage) -> bool {
+    !stage.read.is_empty() || !stage.flips.is_empty() || !stage.w1.is_empty() || !stage.w2.is_empty() || !stage.ambient.is_default()
+}
+
+pub fn judge_stage(stage_no: usize, stage: &Stage, res: &StageResult, expect: &Expect, op: &Option<Op>, budget: u64) -> Vec<Violation> {
+    let mut v = Vec::new();
+    let needs = if has_faults(stage) { "fault-or-delivery-schedule" } else { "input-only" };
+    let describe = format!("exit={:?} signal={:?} stdout={:?} stderr={:?}", res.code, res.signal, lossy(&res.stdout), lossy(&res.stderr));
+    if unconstrained(stage, res) {
+        return v; // output device failed: tallied by the caller, not judged
+    }
+    // ---- C01: the process ends with an exit status, no panic, no hang
+    let stderr_s = String::from_utf8_lossy(&res.stderr);
+    if res.timed_out {
+        v.push(viol("C01", "cli-hang", stage_no, op.clone(), "terminates".into(), "no exit within the 30 s backstop".into(), needs));
+    } else if res.code == Some(97) {
+        v.push(viol("C01", "cli-hang", stage_no, op.clone(), format!("at most {} intercepted system calls", budget), format!("step budget exceeded; trace tail: {}", tail(&res.trace_raw)), needs));
+    } else if res.code == Some(98) {
+        v.push(viol("C01", "cli-hang", stage_no, op.clone(), "finishes without reading stdin (data was given as argument; stdin never delivers)".into(), "blocked forever in read(0)".into(), needs));
+        v.push(viol("C18", "reads-stdin-although-data-was-an-argument", stage_no, op.clone(), "no read(0)".into(), "read(0) issued; with an idle producer the command hangs".into(), needs));
+        return v;
+    } else if let Some(sig) = res.signal {
+        v.push(viol("C01", "cli-killed-by-signal", stage_no, op.clone(), "exit status".into(), format!("signal {} ; {}", sig, describe), needs));
+    } else if res.code == Some(101) || stderr_s.contains("panicked at") {
+        if !matches!(expect, Expect::LibraryBroken { .. }) {
+            v.push(viol("C01", "cli-panic", stage_no, op.clone(), "exit 0 or 1 without panic".into(), describe.clone(), needs));
+        }
+    }
+    if let Expect::LibraryBroken { how } = expect {
+        v.push(viol("C01", "panic", stage_no, op.clone(), "Ok(..) or Err(..)".into(), how.clone(), "input-only"));
+        return v;
+    }
+    if matches!(expect, Expect::Skip) || res.timed_out || res.code == Some(97) {
+        return v;
+    }
+    // ---- C18
+    match expect {
+        Expect::Success { stdout } => {
+            if res.code != Some(0) || res.stdout != stdout.as_bytes() {
+                v.push(viol("C18", "success-output-differs-from-library", stage_no, op.clone(), format!("exit=0 stdout={:?}", stdout), describe.clone(), needs));
+            }
+        }
+        Expect::Failure { log_prefix, why } => {
+            let out = String::from_utf8_lossy(&res.stdout).into_owned();
+            if res.code == Some(0) || res.signal.is_some() && false {
+                v.push(viol("C18", "failure-reported-as-success", stage_no, op.clone(), format!("exit != 0 because {}", why), describe.clone(), needs));
+            } else if res.code != Some(0) {
+                // no result line: stdout may hold only (a prefix of) the lines log wrote before the failure
+                if !log_prefix.starts_with(&out) {
+                    v.push(viol("C18", "output-on-failure", stage_no, op.clone(), format!("stdout a prefix of {:?} ({})", log_prefix, why), describe.clone(), needs));
+                }
+            }
+        }
+        _ => {}
+    }
+    // argument form must not touch stdin at all
+    if stage.form == Form::Arg && res.trace.iter().any(|e| matches!(e, Ev::Read { .. })) {
+        v.push(viol("C18", "reads-stdin-although-data-was-an-argument", stage_no, op.clone(), "no read(0)".into(), format!("trace: {}", tail(&res.trace_raw)), needs));
+    }
+    // ---- C17 (process level): once the input is complete, evaluation touches nothing but fd 1 / fd 2
+    if stage.form != Form::Arg {
+        if let Some(pos) = res.trace.iter().position(|e| matches!(e, Ev::Read { ret: 0, .. })) {
+            for e in &res.trace[pos + 1..] {
+                if let Ev::Other(what) = e {
+                    v.push(viol("C17", "evaluation-touches-ambient-state", stage_no, op.clone(), "after stdin is complete only write(1) / write(2)".into(), what.clone(), needs));
+                    break;
+                }
+            }
+        }
+    }
+    v
+}
+
+fn tail(s: &str) -> String {
+    let lines: Vec<&str> = s.lines().collect();
+    let from = lines.len().saturating_sub(8);
+    lines[from..].join(" | ")
+}
+
+// ---------------------------------------------------------------------------------------------
+// one case end to end
+// ---------------------------------------------------------------------------------------------
+
+#[derive(Default, Clone, Debug)]
+pub struct CaseStats {
+    pub stages: u64,
+    pub syscalls: u64,
+    pub fired: BTreeMap<String, u64>,
+    pub outcome: BTreeMap<String, u64>,
+    pub probes: BTreeMap<String, u64>,
+    pub unconstrained: u64,
+    pub trace_hash: u64,
+}
+
+fn bump(m: &mut BTreeMap<String, u64>, k: &str, by: u64) {
+    *m.entry(k.to_string()).or_insert(0) += by;
+}
+
+fn tally(stage: &Stage, res: &StageResult, expect: &Expect, st: &mut CaseStats) {
+    st.stages += 1;
+    st.syscalls += res.trace.len() as u64;
+    let mut h = prng::Hasher::new();
+    h.u64(st.trace_hash);
+    // A panic message carries the thread id, so the sizes of stderr writes are not a function of the
+    // case; everything else in the trace is.
+    for line in res.trace_raw.lines() {
+        if line.starts_with("w2 ") {
+            h.str("w2");
+            h.str(line.split_whitespace().nth(3).unwrap_or(""));
+        } else {
+            h.str(line);
+        }
+    }
+    h.bytes(&res.stdout);
+    h.u64(res.code.unwrap_or(-1) as u64);
+    st.trace_hash = h.0;
+    let mut last_read_pos_bytes = 0usize;
+    for e in &res.trace {
+        match e {
+            Ev::Read { ret, tag, .. } => {
+                if tag == "EINTR" {
+                    bump(&mut st.fired, "read-EINTR", 1);
+                    if last_read_pos_bytes + 1 == stage.data_text.len() {
+                        bump(&mut st.probes, "EINTR-before-the-last-byte", 1);
+                    }
+                    if last_read_pos_bytes == stage.data_text.len() {
+                        bump(&mut st.probes, "EINTR-before-EOF", 1);
+                    }
+                } else if tag == "short" {
+                    bump(&mut st.fired, "read-short", 1);
+                    if *ret > 0 {
+                        let end = last_read_pos_bytes + *ret as usize;
+                        if end < stage.data_text.len() && (stage.data_text[end] & 0xC0) == 0x80 {
+                            bump(&mut st.probes, "read-split-inside-a-multibyte-character", 1);
+                        }
+                    }
+                } else if tag == "early-eof" {
+                    bump(&mut st.fired, "read-early-EOF", 1);
+                    if last_read_pos_bytes > 0 && last_read_pos_bytes < stage.data_text.len() {
+                        bump(&mut st.probes, "early-EOF-in-mid-document", 1);
+                    }
+                } else if tag.starts_with("errno=") {
+                    bump(&mut st.fired, "read-EIO", 1);
+                } else if *ret == -2 {
+                    bump(&mut st.fired, "stdin-never-delivers-hit", 1);
+                }
+                if *ret > 0 {
+                    last_read_pos_bytes += *ret as usize;
+                }
+            }
+            Ev::Write { fd, tag, .. } => {
+                if tag == "EINTR" {
+                    bump(&mut st.fired, &format!("write{}-EINTR", fd), 1);
+                } else if tag == "short" {
+                    bump(&mut st.fired, &format!("write{}-short", fd), 1);
+                } else if tag.starts_with("errno=") {
+                    bump(&mut st.fired, &format!("write{}-error(unjudged)", fd), 1);
+                }
+            }
+            Ev::Other(_) => {}
+        }
+    }
+    if !stage.flips.is_empty() && stage.form != Form::Arg {
+        bump(&mut st.fired, "stdin-byte-flip", stage.flips.len() as u64);
+        if let Some(b) = intended_bytes(stage, Some(res)) {
+            if std::str::from_utf8(&b).is_err() {
+                bump(&mut st.probes, "flip-produced-invalid-UTF-8", 1);
+            }
+        }
+    }
+    if stage.form == Form::Arg && stage.read.iter().any(|a| a.kind == 'b') {
+        bump(&mut st.fired, "stdin-never-delivers-armed", 1);
+    }
+    if !stage.ambient.is_default() {
+        bump(&mut st.fired, "ambient-perturbed", 1);
+    }
+    let k = match expect {
+        Expect::Success { .. } => "expected-success",
+        Expect::Failure { .. } => "expected-failure",
+        Expect::LibraryBroken { .. } => "library-broken",
+        Expect::Skip => "skipped-over-budget",
+    };
+    bump(&mut st.outcome, k, 1);
+    bump(&mut st.outcome, &format!("exit-{}", res.code.map(|c| c.to_string()).unwrap_or_else(|| format!("signal-{}", res.signal.unwrap_or(0)))), 1);
+    if unconstrained(stage, res) {
+        st.unconstrained += 1;
+    }
+}
+
+pub fn run_case(env: &Env, case: &Case, oracle: &mut Oracle) -> (Vec<Violation>, CaseStats) {
+    let mut st = CaseStats::default();
+    let mut v = Vec::new();
+    // stage 1: the expectation may depend on what the trace says was delivered (early EOF position)
+    let s1 = &case.stage1;
+    let pre = match s1.form {
+        Form::Arg => expectation(&s1.rule_text, Some(&s1.data_text), oracle),
+        _ => expectation(&s1.rule_text, intended_bytes(s1, None).as_deref().or(Some(&s1.data_text)), oracle),
+    };
+    let exp_len = match &pre.0 {
+        Expect::Success { stdout } => stdout.len(),
+        Expect::Failure { log_prefix, .. } => log_prefix.len() + 2048,
+        _ => 2048,
+    };
+    let budget = budget_for(s1, exp_len + 2048);
+    let r1 = run_stage(env, &case.profile, s1, budget);
+    let (e1, op1) = match s1.form {
+        Form::Arg => pre,
+        _ => expectation(&s1.rule_text, intended_bytes(s1, Some(&r1)).as_deref(), oracle),
+    };
+    tally(s1, &r1, &e1, &mut st);
+    v.extend(judge_stage(1, s1, &r1, &e1, &op1, budget));
+    // stage 2: fed with whatever stage 1 wrote to stdout, when stage 1 met its expectation of success
+    if let (Some(s2t), Expect::Success { stdout }) = (&case.stage2, &e1) {
+        if v.is_empty() && !unconstrained(s1, &r1) && r1.stdout == stdout.as_bytes() {
+            let mut s2 = s2t.clone();
+            s2.data_text = r1.stdout.clone();
+            s2.flips.clear();
+            let pre2 = expectation(&s2.rule_text, intended_bytes(&s2, None).as_deref().or(Some(&s2.data_text)), oracle);
+            let exp_len2 = match &pre2.0 {
+                Expect::Success { stdout } => stdout.len(),
+                _ => 2048,
+            };
+            let budget2 = budget_for(&s2, exp_len2 + 2048);
+            let r2 = run_stage(env, &case.profile, &s2, budget2);
+            let (e2, op2) = expectation(&s2.rule_text, intended_bytes(&s2, Some(&r2)).as_deref(), oracle);
+            tally(&s2, &r2, &e2, &mut st);
+            bump(&mut st.probes, "two-stage-pipelines", 1);
+            if stdout.lines().count() == 1 {
+                bump(&mut st.probes, "two-stage-pipelines-single-document", 1);
+            }
+            v.extend(judge_stage(2, &s2, &r2, &e2, &op2, budget2));
+        }
+    }
+    (v, st)
+}
+
+// ---------------------------------------------------------------------------------------------
+// minimisation
+// ---------------------------------------------------------------------------------------------
+
+fn still_fails(env: &Env, case: &Case, target: &Violation, oracle: &mut Oracle, execs: &mut usize) -> Option<Violation> {
+    *execs += 1;
+    let (v, _) = run_case(env, case, oracle);
+    v.into_iter().find(|x| x.property == target.property && x.class == target.class && x.thread == target.thread)
+}
+
+fn text_candidates(s: &[u8]) -> Vec<Vec<u8>> {
+    let mut out = Vec::new();
+    if let Ok(text) = std::str::from_utf8(s) {
+        if let Ok(v) = serde_json::from_str::<Value>(text) {
+            for c in value_candidates(&v).into_iter().take(40) {
+                let t = c.to_string().into_bytes();
+                if t.len() < s.len() {
+                    out.push(t);
+                }
+            }
+            let canon = v.to_string().into_bytes();
+            if canon.len() < s.len() {
+                out.push(canon);
+            }
+            return out;
+        }
+    }
+    // not JSON: delete chunks
+    let n = s.len();
+    let mut chunk = n / 2;
+    while chunk >= 1 {
+        let mut i = 0;
+        while i + chunk <= n {
+            let mut t = s[..i].to_vec();
+            t.extend_from_slice(&s[i + chunk..]);
+            out.push(t);
+            i += chunk;
+        }
+        if out.len() > 60 {
+            break;
+        }
+        chunk /= 2;
+    }
+    out
+}
+
+pub fn shrink_case(env: &Env, case: &Case, target: &Violation, oracle: &mut Oracle, budget: usize) -> (Case, Violation, usize) {
+    let mut best = case.clone();
+    let mut best_v = target.clone();
+    let mut execs = 0usize;
+    macro_rules! attempt {
+        ($cand:expr) => {{
+            let c: Case = $cand;
+            if execs < budget && c.to_json() != best.to_json() {
+                if let Some(vv) = still_fails(env, &c, &best_v, oracle, &mut execs) {
+                    best = c;
+                    best_v = vv;
+                    true
+                } else {
+                    false
+                }
+            } else {
+                false
+            }
+        }};
+    }
+    if target.thread == 1 && best.stage2.is_some() {
+        let mut c = best.clone();
+        c.stage2 = None;
+        attempt!(c);
+    }
+    let which = |c: &mut Case, stage_no: usize| -> *mut Stage {
+        if stage_no == 2 {
+            c.stage2.as_mut().unwrap() as *mut Stage
+        } else {
+            &mut c.stage1 as *mut Stage
+        }
+    };
+    let stages: Vec<usize> = if best.stage2.is_some() { vec![1, 2] } else { vec![1] };
+    for sn in stages {
+        // ambient, separators, scripts
+        let simple: Vec<Box<dyn Fn(&mut Stage)>> = vec![
+            Box::new(|s| s.ambient = Ambient::default()),
+            Box::new(|s| s.w2.clear()),
+            Box::new(|s| s.w1.clear()),
+            Box::new(|s| s.flips.clear()),
+            Box::new(|s| s.read.clear()),
+            Box::new(|s| s.sep = false),
+        ];
+        for f in simple {
+            let mut c = best.clone();
+            let p = which(&mut c, sn);
+            unsafe { f(&mut *p) };
+            attempt!(c);
+        }
+        // script entries one by one
+        for field in 0..3 {
+            let mut i = 0;
+            loop {
+                let mut c = best.clone();
+                let p = which(&mut c, sn);
+                let s = unsafe { &mut *p };
+                let list = match field {
+                    0 => &mut s.read,
+                    1 => &mut s.w1,
+                    _ => &mut s.w2,
+                };
+                if i >= list.len() {
+                    break;
+                }
+                list.remove(i);
+                if !attempt!(c) {
+                    i += 1;
+                }
+            }
+        }
+        // flips one by one
+        let mut i = 0;
+        loop {
+            let mut c = best.clone();
+            let p = which(&mut c, sn);
+            let s = unsafe { &mut *p };
+            if i >= s.flips.len() {
+                break;
+            }
+            s.flips.remove(i);
+            if !attempt!(c) {
+                i += 1;
+            }
+        }
+        // texts
+        let mut changed = true;
+        while changed && execs < budget {
+            changed = false;
+            let cur = if sn == 2 { best.stage2.clone().unwrap() } else { best.stage1.clone() };
+            for cand in text_candidates(cur.rule_text.as_bytes()) {
+                if let Ok(t) = String::from_utf8(cand) {
+                    let mut c = best.clone();
+                    let p = which(&mut c, sn);
+                    unsafe { (*p).rule_text = t };
+                    if attempt!(c) {
+                        changed = true;
+                        break;
+                    }
+                }
+            }
+            if changed || sn == 2 {
+                continue;
+            }
+            for cand in text_candidates(&cur.data_text) {
+                let mut c = best.clone();
+                let p = which(&mut c, sn);
+                unsafe {
+                    if (*p).form == Form::Arg && (cand.contains(&0) || cand == b"-" || std::str::from_utf8(&cand).is_err()) {
+                        continue;
+                    }
+                    // flips address absolute offsets: keep them inside the text
+                    let len = cand.len();
+                    (*p).flips.retain(|(o, _)| *o < len);
+                    (*p).data_text = cand;
+                }
+                if attempt!(c) {
+                    changed = true;
+                    break;
+                }
+            }
+        }
+    }
+    (best, best_v, execs)
+}
+
+// ---------------------------------------------------------------------------------------------
+// worker entry points
+// ---------------------------------------------------------------------------------------------
+
+fn env_from(a: &Args) -> Env {
+    Env { cli_debug: a.str("cli-debug", "/verif/build/target-cli/debug/jsonlogic"), cli_release: a.str("cli-release", "/verif/build/target-cli/release/jsonlogic"), shim: a.str("shim", "/verif/build/libsimio.so") }
+}
+
+pub fn main(a: &Args) -> i32 {
+    let seed = a.u64("seed", 1);
+    let tier = a.str("tier", "quick");
+    let worker = a.u64("worker", 0);
+    let workers = a.u64("workers", 1).max(1);
+    let seconds = a.f64("seconds", 10.0);
+    let max_runs = a.u64("max-runs", u64::MAX);
+    let first = a.u64("first-run", 0);
+    let out_path = a.str("out", "/dev/stdout");
+    let replay_dir = a.str("replay-dir", ".");
+    let profiles: Vec<String> = a.str("profiles", "debug").split(',').map(String::from).collect();
+    let det_every = a.u64("determinism-every", 0);
+    let max_shrunk = a.u64("max-shrunk", 4);
+    let started = Instant::now();
+    let env = env_from(a);
+
+    hooks::install();
+    let mut oracle = Oracle::start();
+    let corpus = Corpus::load();
+
+    let mut runs = 0u64;
+    let mut stats = CaseStats::default();
+    let mut forms: BTreeMap<String, u64> = BTreeMap::new();
+    let mut nontrivial: BTreeSet<u64> = BTreeSet::new();
+    let mut violations: Vec<Value> = Vec::new();
+    let mut seen: BTreeSet<String> = BTreeSet::new();
+    let mut harness_errors: Vec<String> = Vec::new();
+    let mut samples: Vec<Value> = Vec::new();
+    let mut det_checked = 0u64;
+    let mut det_mismatch = 0u64;
+    let mut shrunk = 0u64;
+    let dump_hashes = a.has("dump-hashes");
+    let mut hashes: BTreeMap<String, String> = BTreeMap::new();
+
+    let mut i = first + worker;
+    while runs < max_runs && (started.elapsed().as_secs_f64() < seconds || runs == 0) {
+        let case_seed = prng::mix(seed, &[crate::tier_id(&tier), 2, i]);
+        let mut prof_rng = Rng::new(prng::mix(case_seed, &[0x9f0f]));
+        let profile = profiles[prof_rng.below(profiles.len())].clone();
+        let case = gen_case(case_seed, &profile, &corpus);
+        let (found, st) = run_case(&env, &case, &mut oracle);
+        if det_every > 0 && runs % det_every == 0 {
+            det_checked += 1;
+            let (_, st2) = run_case(&env, &case, &mut oracle);
+            if st2.trace_hash != st.trace_hash {
+                det_mismatch += 1;
+                harness_errors.push(format!("determinism: case {} (seed {:016x}) trace hashes {:016x} vs {:016x}", i, case_seed, st.trace_hash, st2.trace_hash));
+            }
+        }
+        if dump_hashes {
+            hashes.insert(i.to_string(), format!("{:016x}", st.trace_hash));
+        }
+        runs += 1;
+        stats.stages += st.stages;
+        stats.syscalls += st.syscalls;
+        stats.unconstrained += st.unconstrained;
+        for (k, n) in &st.fired {
+            bump(&mut stats.fired, k, *n);
+        }
+        for (k, n) in &st.outcome {
+            bump(&mut stats.outcome, k, *n);
+        }
+        for (k, n) in &st.probes {
+            bump(&mut stats.probes, k, *n);
+        }
+        let form_name = format!(
+            "{}{}",
+            match case.stage1.form {
+                Form::Arg => "arg",
+                Form::StdinOmitted => "stdin",
+                Form::StdinDash => "stdin-dash",
+            },
+            if case.stage1.sep { "+sep" } else { "" }
+        );
+        bump(&mut forms, &form_name, 1);
+        bump(&mut forms, &format!("profile-{}", profile), 1);
+        if has_faults(&case.stage1) || case.stage2.is_some() {
+            nontrivial.insert(st.trace_hash ^ prng::fnv1a(serde_json::to_string(&case.to_json()).unwrap().as_bytes()));
+        }
+        if samples.len() < 3 && has_faults(&case.stage1) && case.stage1.form != Form::Arg {
+            samples.push(case.to_json());
+        }
+        for v in found {
+            let sig = format!("{}/{}", v.property, v.class);
+            let sig_full = v.signature();
+            if !seen.insert(sig_full) {
+                continue;
+            }
+            let (min_case, min_v, execs) = if shrunk < max_shrunk {
+                shrunk += 1;
+                shrink_case(&env, &case, &v, &mut oracle, 300)
+            } else {
+                (case.clone(), v.clone(), 0)
+            };
+            let name = format!("{}-e2-{:016x}-{}.json", min_v.property, case_seed, violations.len());
+            let path = format!("{}/{}", replay_dir, name);
+            let doc = json!({
+                "engine": "e2", "property": min_v.property, "violation": min_v.to_json(), "original_violation": v.to_json(),
+                "verif_seed": seed, "tier": tier, "run_index": i, "shrink_executions": execs, "case": min_case.to_json(),
+                "command_line": command_line(if min_v.thread == 2 { min_case.stage2.as_ref().unwrap_or(&min_case.stage1) } else { &min_case.stage1 }),
+            });
+            let _ = std::fs::write(&path, serde_json::to_string_pretty(&doc).unwrap());
+            violations.push(json!({"property": min_v.property, "class": min_v.class, "signature": format!("{}/{:016x}", sig, key_of(&min_case, &min_v)), "needs": min_v.needs, "replay": path,
+                                   "summary": format!("{}{} -> expected {} got {}", if min_v.thread == 2 { "[second stage, fed with the first stage's stdout] " } else { "" }, command_line(if min_v.thread == 2 { min_case.stage2.as_ref().unwrap_or(&min_case.stage1) } else { &min_case.stage1 }), min_v.expected, min_v.got)}));
+        }
+        i += workers;
+    }
+    let nt_path = format!("{}.nontrivial", out_path);
+    let mut bytes = Vec::with_capacity(nontrivial.len() * 8);
+    for h in &nontrivial {
+        bytes.extend_from_slice(&h.to_le_bytes());
+    }
+    let _ = std::fs::write(&nt_path, bytes);
+    let summary = json!({
+        "engine": "e2", "worker": worker, "runs": runs,
+        "sums": {"stages": stats.stages, "intercepted_syscalls": stats.syscalls, "unconstrained_output_device_failures": stats.unconstrained},
+        "forms": forms, "faults_fired": stats.fired, "outcomes": stats.outcome, "probes": stats.probes,
+        "determinism": {"checked": det_checked, "mismatches": det_mismatch},
+        "oracle": {"forks": oracle.forks, "queries": oracle.queries},
+        "nontrivial_file": nt_path, "nontrivial_local": nontrivial.len(),
+        "violations": violations, "harness_errors": harness_errors, "samples": samples, "hashes": hashes,
+        "wall_s": started.elapsed().as_secs_f64(),
+    });
+    if std::fs::write(&out_path, serde_json::to_string(&summary).unwrap()).is_err() {
+        return 2;
+    }
+    if harness_errors.is_empty() {
+        0
+    } else {
+        2
+    }
+}
+
+/// Content key of a minimised E2 violation (for known-findings): what the user typed and what failed.
+fn key_of(case: &Case, v: &Violation) -> u64 {
+    let s = if v.thread == 2 { case.stage2.as_ref().unwrap_or(&case.stage1) } else { &case.stage1 };
+    let mut h = prng::Hasher::new();
+    h.str(&s.rule_text);
+    h.bytes(&s.data_text);
+    h.str(match s.form {
+        Form::Arg => "arg",
+        Form::StdinOmitted => "stdin",
+        Form::StdinDash => "dash",
+    });
+    h.u64(s.sep as u64);
+    h.0
+}
+
+fn sh_quote(s: &str) -> String {
+    format!("'{}'", s.replace('\'', "'\\''"))
+}
+
+pub fn command_line(s: &Stage) -> String {
+    let mut c = String::from("jsonlogic");
+    if s.sep {
+        c.push_str(" --");
+    }
+    c.push(' ');
+    c.push_str(&sh_quote(&s.rule_text));
+    match s.form {
+        Form::Arg => {
+            c.push(' ');
+            c.push_str(&sh_quote(&String::from_utf8_lossy(&s.data_text)));
+        }
+        Form::StdinDash => c.push_str(&format!(" - <<< {}", sh_quote(&String::from_utf8_lossy(&s.data_text)))),
+        Form::StdinOmitted => c.push_str(&format!(" <<< {}", sh_quote(&String::from_utf8_lossy(&s.data_text)))),
+    }
+    c
+}
+
+pub fn replay(doc: &Value, a: &Args) -> i32 {
+    let env = env_from(a);
+    hooks::install();
+    let mut oracle = Oracle::start();
+    let case = match doc.get("case").and_then(Case::from_json) {
+        Some(c) => c,
+        None => {
+            eprintln!("malformed e2 replay file");
+            return 2;
+        }
+    };
+    let target = doc.get("violation").and_then(Violation::from_json);
+    let (found, st) = run_case(&env, &case, &mut oracle);
+    let hit = match &target {
+        Some(t) => found.iter().any(|v| v.property == t.property && v.class == t.class),
+        None => !found.is_empty(),
+    };
+    println!("{}", json!({"trace_hash": format!("{:016x}", st.trace_hash), "violations": found.iter().map(|v| v.to_json()).collect::<Vec<_>>(), "reproduced": hit}));
+    if hit {
+        1
+    } else {
+        0
+    }
 }
